@@ -1,6 +1,13 @@
 from ural.data import ISO_3166_1_COUNTRIES_ALPHA_2
-from ural.normalize_url import normalize_url, normalize_hostname
-from ural.utils import SplitResult, urlunsplit, urlsplit, unsplit_netloc
+from ural.normalize_url import normalize_url, normalize_hostname, qsl_sort_key
+from ural.utils import (
+    SplitResult,
+    urlunsplit,
+    urlsplit,
+    unsplit_netloc,
+    safe_qsl_iter,
+    safe_serialize_qsl,
+)
 from ural.infer_redirection import infer_redirection as resolve
 from ural.ensure_protocol import ensure_protocol
 from ural.tld import split_suffix
@@ -87,6 +94,10 @@ def fingerprint_url(url, unsplit=True, strip_suffix=False, platform_aware=False)
     path = path.lower()
     query = query.lower()
     fragment = fragment.lower()
+
+    # NOTE: lower-casing can change the order of the query items
+    if query:
+        query = safe_serialize_qsl(sorted(safe_qsl_iter(query), key=qsl_sort_key))
 
     user, password, hostname, port = (
         splitted.username,
